@@ -103,6 +103,8 @@ func (t *ParserTerm) preCheck(ctx *Context) bool {
 			t.Symbol = ast.Rule
 		case *TokenRule:
 			t.Symbol = ast.Terminal
+		case *ExternalName:
+			t.Symbol = ast.Terminal
 		default:
 			ctx.Errs.Errorf(ctx.Position(t), "%v is not a parser or token rule", t.Name)
 			return false
